@@ -304,3 +304,82 @@ c.raise_case('ambiguous', 'KeyError', ensures=[
 c.ensure('context_unchanged', lambda x: PCtx.box(x.self_new) == PCtx.box(x.self_old))
 c.raises_only_listed = True
 register(c)
+
+
+# ---- ImportManager.add_import (C06, C19): dedupe by module, unique bound names -------------------------
+from pyvc.sym import KSet
+IM = KRecord('ImportManager', {'dynamic_registration': KBool, 'imports': KList(ImpA),
+                               'module_selectors': KDict(KStr, KStr), 'names': KSet(KStr)},
+             mutable=True)
+world.RECORD_CLASSES['ImportManager'] = ('config.py', IM)
+s_ = z3.Const('s!im', sym.Str)
+
+
+def _bn(stmt_boxed):
+  return sym.ufun('import_bound_name', ImpA.sort(), sym.Str)(stmt_boxed)
+
+
+def im_invariant(im):
+  """Representation invariant of an ImportManager: one import per module, every import's module
+  has its selector recorded, the bound names of the imports are exactly `names` and pairwise
+  distinct."""
+  imps, ms, names = im.fields['imports'], im.fields['module_selectors'], im.fields['names']
+  mod = lambda b: ImpA.unbox(b).fields['module'].e
+  j_ = z3.Int('j!im')
+  return z3.And(
+      sym.forall([i_], z3.Implies(z3.And(0 <= i_, i_ < imps.len), z3.And(
+          ms.dom[mod(imps.arr[i_])], names.dom[_bn(imps.arr[i_])])), patterns=[imps.arr[i_]]),
+      sym.forall([i_, j_], z3.Implies(
+          z3.And(0 <= i_, i_ < j_, j_ < imps.len),
+          z3.And(mod(imps.arr[i_]) != mod(imps.arr[j_]), _bn(imps.arr[i_]) != _bn(imps.arr[j_]))),
+          patterns=[[imps.arr[i_], imps.arr[j_]]]),
+      sym.forall([s_], z3.Implies(ms.dom[s_], z3.Exists([i_], z3.And(
+          0 <= i_, i_ < imps.len, mod(imps.arr[i_]) == s_))), patterns=[ms.dom[s_]]),
+      sym.forall([s_], z3.Implies(names.dom[s_], z3.Exists([i_], z3.And(
+          0 <= i_, i_ < imps.len, _bn(imps.arr[i_]) == s_))), patterns=[names.dom[s_]]))
+
+
+c = Contract('config.py::ImportManager.add_import', ['C06', 'C19'])
+c.self_kind = IM
+c.param('statement', ImpA)
+c.modifies_self = ['imports', 'module_selectors', 'names']
+c.require('representation_invariant', lambda x: im_invariant(x.self_old))
+c.assume_entry('an_alias_is_the_bound_name', lambda x: sym.forall(
+    [s_], z3.Implies(s_ != sym.str_lit(''), _bn(ImpA.box(_with_alias(x.a.statement, s_))) == s_),
+    patterns=[_bn(ImpA.box(_with_alias(x.a.statement, s_)))]),
+    'string fact proved in c_strings.py (ImportStatement.bound_name): an import with a non-empty '
+    'alias is bound under that alias')
+c.assume_entry('bound_names_are_not_empty', lambda x: _bn(ImpA.box(x.a.statement)) != sym.str_lit(''),
+               'a module path / alias is a non-empty identifier')
+
+
+def _with_alias(stmt, alias):
+  f = dict(stmt.fields)
+  f['alias'] = sym.VOpt(KOpt(KStr), z3.BoolVal(False), VStr(alias))
+  return sym.VRecord(ImpA, f)
+
+
+def _im_same(x):
+  return IM.box(x.self_new) == IM.box(x.self_old)
+
+
+def _module(x):
+  return x.a.statement.fields['module'].e
+
+
+c.ensure('a_module_already_imported_is_not_imported_again', lambda x: z3.Implies(
+    x.self_old.fields['module_selectors'].dom[_module(x)], _im_same(x)))
+c.ensure('a_new_module_is_appended_once_under_a_name_not_taken_before', lambda x: z3.Implies(
+    z3.Not(x.self_old.fields['module_selectors'].dom[_module(x)]), z3.And(
+        x.self_new.fields['imports'].len == x.self_old.fields['imports'].len + 1,
+        ImpA.unbox(x.self_new.fields['imports'].arr[x.self_old.fields['imports'].len]
+                   ).fields['module'].e == _module(x),
+        z3.Not(x.self_old.fields['names'].dom[
+            _bn(x.self_new.fields['imports'].arr[x.self_old.fields['imports'].len])]),
+        sym.forall([i_], z3.Implies(
+            z3.And(0 <= i_, i_ < x.self_old.fields['imports'].len),
+            x.self_new.fields['imports'].arr[i_] == x.self_old.fields['imports'].arr[i_]),
+            patterns=[x.self_new.fields['imports'].arr[i_]]))))
+c.ensure('representation_invariant_holds_after', lambda x: im_invariant(x.self_new))
+c.raises_only_listed = True
+register(c)
